@@ -209,11 +209,18 @@ func raceBin(prop string) func(tier string) string {
 	}
 }
 
+func casesFor(prop string) func(string) int64 {
+	if prop == "C11" {
+		return tierN(5000, 100000)
+	}
+	return tierN(8000, 200000)
+}
+
 func init() {
 	for _, prop := range []string{"C10", "C11"} {
 		prop := prop
 		p := &fw.Prop{
-			ID: prop, Cases: tierN(2000, 100000),
+			ID: prop, Cases: casesFor(prop),
 			Run: func(c *fw.Ctx) { judgePipe(c, genPipeCase(c.Rng), prop) },
 			Replay: func(c *fw.Ctx, raw json.RawMessage) {
 				var pc PipeCase
